@@ -62,7 +62,7 @@ theorem parseFilterSelector_step (ih : Inv env fuel) :
     simp_all
 
 theorem parseByHandler_step (ih : Inv env fuel) (h : Handler) :
-    Post (parseByHandler env h (fuel + 1)) (Good env) := by
+    Post (parseByHandler env h (fuel + 1)) (GoodPx env) := by
   cases h <;> simp only [parseByHandler]
   all_goals first
     | exact ih.grouped
@@ -76,7 +76,7 @@ theorem parseByHandler_step (ih : Inv env fuel) (h : Handler) :
         | exact Post.pure (GoodE.rel hs))
 
 theorem parseFilterExpr_step (ih : Inv env fuel) (prec : Nat) :
-    Post (parseFilterExpr env prec (fuel + 1)) (Good env) := by
+    Post (parseFilterExpr env prec (fuel + 1)) (GoodPx env) := by
   rw [parseFilterExpr]
   pnorm
   pskip
@@ -88,8 +88,8 @@ theorem parseFilterExpr_step (ih : Inv env fuel) (prec : Nat) :
     · intro left hl
       exact ih.loop _ _ hl
 
-theorem filterExprLoop_step (ih : Inv env fuel) (prec : Nat) (left : PExpr) (hl : Good env left) :
-    Post (filterExprLoop env prec (fuel + 1) left) (Good env) := by
+theorem filterExprLoop_step (ih : Inv env fuel) (prec : Nat) (left : PExpr) (hl : GoodPx env left) :
+    Post (filterExprLoop env prec (fuel + 1) left) (GoodPx env) := by
   rw [filterExprLoop]
   pnorm
   psteps
@@ -98,8 +98,8 @@ theorem filterExprLoop_step (ih : Inv env fuel) (prec : Nat) (left : PExpr) (hl 
   · pcall (ih.infx _ hl) with l' hl'
     exact ih.loop _ _ hl'
 
-theorem parseInfix_step (ih : Inv env fuel) (left : PExpr) (hl : Good env left) :
-    Post (parseInfix env left (fuel + 1)) (Good env) := by
+theorem parseInfix_step (ih : Inv env fuel) (left : PExpr) (hl : GoodPx env left) :
+    Post (parseInfix env left (fuel + 1)) (GoodPx env) := by
   rw [parseInfix]
   pnorm
   pskip
@@ -118,7 +118,7 @@ theorem parseInfix_step (ih : Inv env fuel) (left : PExpr) (hl : Good env left) 
       exact Post.pure (GoodE.logical _ hl hr h1 h2)
 
 theorem parsePrefix_step (ih : Inv env fuel) :
-    Post (parsePrefix env (fuel + 1)) (Good env) := by
+    Post (parsePrefix env (fuel + 1)) (GoodPx env) := by
   rw [parsePrefix]
   pnorm
   pskip
@@ -131,7 +131,7 @@ theorem parsePrefix_step (ih : Inv env fuel) :
     exact Post.pure (GoodE.not hr h1)
 
 theorem parseGrouped_step (ih : Inv env fuel) :
-    Post (parseGrouped env (fuel + 1)) (Good env) := by
+    Post (parseGrouped env (fuel + 1)) (GoodPx env) := by
   rw [parseGrouped]
   pnorm
   pskip
@@ -143,8 +143,8 @@ theorem parseGrouped_step (ih : Inv env fuel) :
   psteps
   exact hy
 
-theorem groupedLoop_step (ih : Inv env fuel) (x : PExpr) (hx : Good env x) :
-    Post (groupedLoop env (fuel + 1) x) (Good env) := by
+theorem groupedLoop_step (ih : Inv env fuel) (x : PExpr) (hx : GoodPx env x) :
+    Post (groupedLoop env (fuel + 1) x) (GoodPx env) := by
   rw [groupedLoop]
   pnorm
   psteps
@@ -153,7 +153,7 @@ theorem groupedLoop_step (ih : Inv env fuel) (x : PExpr) (hx : Good env x) :
     exact ih.gloop _ hy
 
 theorem parseFunction_step (ih : Inv env fuel) :
-    Post (parseFunction env (fuel + 1)) (Good env) := by
+    Post (parseFunction env (fuel + 1)) (GoodPx env) := by
   rw [parseFunction]
   pnorm
   pskip
@@ -183,8 +183,8 @@ theorem functionArgs_step (ih : Inv env fuel) (args : List Expr) (parens : List 
       psteps
       all_goals exact ih.fargs _ _ (ArgsOK.snoc ha hy)
 
-theorem functionArgInfix_step (ih : Inv env fuel) (x : PExpr) (hx : Good env x) :
-    Post (functionArgInfix env (fuel + 1) x) (Good env) := by
+theorem functionArgInfix_step (ih : Inv env fuel) (x : PExpr) (hx : GoodPx env x) :
+    Post (functionArgInfix env (fuel + 1) x) (GoodPx env) := by
   rw [functionArgInfix]
   pnorm
   psteps
